@@ -10,9 +10,11 @@
       by a *cone tree*: direction space is the union of the 8 coordinate octants; a cone
       spanned by g1, g2, g3 is either closed by ONE certified point p of A - B with
       p.g_k >= rho |g_k| (k = 1..3) -- then p.n >= rho |n| for every n of the cone, because
-      p.n is linear on the cone and |n| <= sum l_k |g_k| -- or it is split at a direction
-      g = c1 g1 + c2 g2 + c3 g3 (c_k >= 0, not all zero) into the (at most three) cones
-      that replace one generator with c_k > 0 by g; these cover the parent.
+      p.n is linear on the cone and |n| <= sum l_k |g_k| -- or it is split at an arbitrary
+      direction g: with D = det(g1,g2,g3) and d_k the determinant with g in place of g_k
+      (so D g = d1 g1 + d2 g2 + d3 g3), the (at most three) cones that replace one generator
+      with d_k D > 0 by g cover the parent, whatever the signs of the other d_j (g may lie
+      outside the parent; at least one d_k D must be positive, which also forces D <> 0).
       The tree, the split coefficients and the points are untrusted witnesses (built by the
       harness from the normal fan of conv(A - B)); everything is checked in exact
       rational arithmetic and the conclusion is a theorem over the reals:
@@ -107,18 +109,44 @@ Proof.
   - exfalso. lra.
 Qed.
 
+(** the same for coefficients of arbitrary sign (non-positive ones never bind) *)
+Lemma split_coeffs_gen (l1 l2 l3 c1 c2 c3 : R) :
+  (0 <= l1 -> 0 <= l2 -> 0 <= l3 -> (0 < c1 \/ 0 < c2 \/ 0 < c3) ->
+   exists t, 0 <= t /\ t * c1 <= l1 /\ t * c2 <= l2 /\ t * c3 <= l3 /\
+     ((0 < c1 /\ t * c1 = l1) \/ (0 < c2 /\ t * c2 = l2) \/ (0 < c3 /\ t * c3 = l3)))%R.
+Proof.
+  intros L1 L2 L3 Hpos.
+  set (p1 := Rmax c1 0). set (p2 := Rmax c2 0). set (p3 := Rmax c3 0).
+  assert (Hm : forall c : R, (0 <= Rmax c 0 /\ c <= Rmax c 0 /\ (0 < c -> Rmax c 0 = c) /\ (0 < Rmax c 0 -> 0 < c))%R).
+  { intros c. unfold Rmax. destruct (Rle_dec c 0); repeat split; intros; lra. }
+  destruct (Hm c1) as (A1 & B1 & E1 & F1). destruct (Hm c2) as (A2 & B2 & E2 & F2). destruct (Hm c3) as (A3 & B3 & E3 & F3).
+  fold p1 in A1, B1, E1, F1. fold p2 in A2, B2, E2, F2. fold p3 in A3, B3, E3, F3.
+  assert (Hp : (0 < p1 \/ 0 < p2 \/ 0 < p3)%R).
+  { destruct Hpos as [H|[H|H]]; [left; rewrite (E1 H)|right; left; rewrite (E2 H)|right; right; rewrite (E3 H)]; auto. }
+  destruct (split_coeffs l1 l2 l3 p1 p2 p3 L1 L2 L3 A1 A2 A3 Hp) as (t & T0 & T1 & T2 & T3 & Hk).
+  exists t. split; [auto|].
+  assert (t * c1 <= t * p1)%R by (apply Rmult_le_compat_l; lra).
+  assert (t * c2 <= t * p2)%R by (apply Rmult_le_compat_l; lra).
+  assert (t * c3 <= t * p3)%R by (apply Rmult_le_compat_l; lra).
+  repeat split; try lra.
+  destruct Hk as [(P & E)|[(P & E)|(P & E)]].
+  - left. split; [auto|]. rewrite <- (E1 (F1 P)). exact E.
+  - right; left. split; [auto|]. rewrite <- (E2 (F2 P)). exact E.
+  - right; right. split; [auto|]. rewrite <- (E3 (F3 P)). exact E.
+Qed.
+
 Definition comb3 (c1 c2 c3 : R) (g1 g2 g3 : V3R) : V3R :=
   vadd (vscale c1 g1) (vadd (vscale c2 g2) (vscale c3 g3)).
 
 (** the children of a split cover the parent *)
 Lemma cone_split (g1 g2 g3 n : V3R) (c1 c2 c3 : R) :
-  (0 <= c1)%R -> (0 <= c2)%R -> (0 <= c3)%R -> (0 < c1 \/ 0 < c2 \/ 0 < c3)%R ->
+  (0 < c1 \/ 0 < c2 \/ 0 < c3)%R ->
   in_cone g1 g2 g3 n ->
   let g := comb3 c1 c2 c3 g1 g2 g3 in
   ((0 < c1)%R /\ in_cone g g2 g3 n) \/ ((0 < c2)%R /\ in_cone g1 g g3 n) \/ ((0 < c3)%R /\ in_cone g1 g2 g n).
 Proof.
-  intros C1 C2 C3 Hpos (l1 & l2 & l3 & L1 & L2 & L3 & ->) g.
-  destruct (split_coeffs l1 l2 l3 c1 c2 c3 L1 L2 L3 C1 C2 C3 Hpos) as (t & T0 & T1 & T2 & T3 & Hk).
+  intros Hpos (l1 & l2 & l3 & L1 & L2 & L3 & ->) g.
+  destruct (split_coeffs_gen l1 l2 l3 c1 c2 c3 L1 L2 L3 Hpos) as (t & T0 & T1 & T2 & T3 & Hk).
   destruct Hk as [(P & E)|[(P & E)|(P & E)]].
   - left. split; auto. exists t, (l2 - t * c2)%R, (l3 - t * c3)%R. repeat split; try lra.
     unfold g, comb3. destruct g1 as [a1 a2 a3], g2 as [b1 b2 b3], g3 as [d1 d2 d3]. vunfold. cbn [vx vy vz]. f_equal; rewrite <- E; ring.
@@ -151,13 +179,33 @@ Qed.
 (** ** the executable checker *)
 Inductive ctree :=
 | CLeaf (i : nat)
-| CSplit (c1 c2 c3 : Q) (t1 t2 t3 : ctree).
+| CSplit (g : VQ) (t1 t2 t3 : ctree).
 
-Definition qcomb3 (c1 c2 c3 : Q) (g1 g2 g3 : VQ) : VQ :=
-  qadd (qscale c1 g1) (qadd (qscale c2 g2) (qscale c3 g3)).
-Lemma qcomb3_r c1 c2 c3 g1 g2 g3 :
-  v2r (qcomb3 c1 c2 c3 g1 g2 g3) = comb3 (Q2R c1) (Q2R c2) (Q2R c3) (v2r g1) (v2r g2) (v2r g3).
-Proof. unfold qcomb3, comb3. rewrite !qadd_r, !qscale_r. reflexivity. Qed.
+Definition qcross (a b : VQ) : VQ :=
+  V (vy a * vz b - vz a * vy b)%Q (vz a * vx b - vx a * vz b)%Q (vx a * vy b - vy a * vx b)%Q.
+Definition qdet (a b c : VQ) : Q := qdot a (qcross b c).
+Definition det3 (a b c : V3R) : R :=
+  (vx a * (vy b * vz c - vz b * vy c) + vy a * (vz b * vx c - vx b * vz c) + vz a * (vx b * vy c - vy b * vx c))%R.
+Lemma qdet_r a b c : Q2R (qdet a b c) = det3 (v2r a) (v2r b) (v2r c).
+Proof. unfold qdet, qdot, qcross, det3, v2r. cbn [vx vy vz]. q2r. ring. Qed.
+
+(** Cramer: D g = d1 g1 + d2 g2 + d3 g3 *)
+Lemma cramer (g1 g2 g3 g : V3R) :
+  vscale (det3 g1 g2 g3) g =
+  vadd (vscale (det3 g g2 g3) g1) (vadd (vscale (det3 g1 g g3) g2) (vscale (det3 g1 g2 g) g3)).
+Proof.
+  destruct g1 as [a1 a2 a3], g2 as [b1 b2 b3], g3 as [c1 c2 c3], g as [x1 x2 x3].
+  unfold det3. vunfold. cbn [vx vy vz]. f_equal; ring.
+Qed.
+
+(** components in lowest terms *)
+Definition vred (v : VQ) : VQ := V (Qred (vx v)) (Qred (vy v)) (Qred (vz v)).
+Lemma vred_r v : v2r (vred v) = v2r v.
+Proof.
+  unfold vred, v2r. cbn [vx vy vz].
+  rewrite (Qeq_eqR _ _ (Qred_correct (vx v))), (Qeq_eqR _ _ (Qred_correct (vy v))),
+          (Qeq_eqR _ _ (Qred_correct (vz v))). reflexivity.
+Qed.
 
 (** p.g >= rho |g|, without square roots *)
 Definition leaf_ok (p g : VQ) (rho : Q) : bool :=
@@ -179,13 +227,13 @@ Fixpoint cone_ok (pts : list VQ) (rho : Q) (t : ctree) (g1 g2 g3 : VQ) : bool :=
     | Some p => leaf_ok p g1 rho && leaf_ok p g2 rho && leaf_ok p g3 rho
     | None => false
     end
-  | CSplit c1 c2 c3 t1 t2 t3 =>
-    let g := qcomb3 c1 c2 c3 g1 g2 g3 in
-    Qle_bool 0 c1 && Qle_bool 0 c2 && Qle_bool 0 c3 &&
-    (Qlt_bool 0 c1 || Qlt_bool 0 c2 || Qlt_bool 0 c3) &&
-    (if Qlt_bool 0 c1 then cone_ok pts rho t1 g g2 g3 else true) &&
-    (if Qlt_bool 0 c2 then cone_ok pts rho t2 g1 g g3 else true) &&
-    (if Qlt_bool 0 c3 then cone_ok pts rho t3 g1 g2 g else true)
+  | CSplit g t1 t2 t3 =>
+    let D := qdet g1 g2 g3 in
+    let d1 := (qdet g g2 g3 * D)%Q in let d2 := (qdet g1 g g3 * D)%Q in let d3 := (qdet g1 g2 g * D)%Q in
+    (Qlt_bool 0 d1 || Qlt_bool 0 d2 || Qlt_bool 0 d3) &&
+    (if Qlt_bool 0 d1 then cone_ok pts rho t1 g g2 g3 else true) &&
+    (if Qlt_bool 0 d2 then cone_ok pts rho t2 g1 g g3 else true) &&
+    (if Qlt_bool 0 d3 then cone_ok pts rho t3 g1 g2 g else true)
   end.
 
 Lemma Qlt_bool_false_R a b : Qlt_bool a b = false -> (Q2R b <= Q2R a)%R.
@@ -198,26 +246,41 @@ Theorem cone_ok_sound pts rho : (0 <= Q2R rho)%R ->
   forall n, in_cone (v2r g1) (v2r g2) (v2r g3) n ->
   exists p, In p pts /\ (Q2R rho * norm n <= dot (v2r p) n)%R.
 Proof.
-  intros Hr. induction t as [i|c1 c2 c3 t1 IH1 t2 IH2 t3 IH3]; intros g1 g2 g3 H n Hn; simpl in H.
+  intros Hr. induction t as [i|g t1 IH1 t2 IH2 t3 IH3]; intros g1 g2 g3 H n Hn; simpl in H.
   - destruct (nth_error pts i) as [p|] eqn:E; [|discriminate].
     apply andb_true_iff in H as (H & H3). apply andb_true_iff in H as (H1 & H2).
     exists p. split; [eapply nth_error_In; eauto|].
     apply (cone_leaf (v2r g1) (v2r g2) (v2r g3) n (v2r p) (Q2R rho)); auto; apply leaf_ok_sound; auto.
   - repeat (apply andb_true_iff in H; destruct H as (H & ?)).
-    rename H0 into K3, H1 into K2, H2 into K1, H3 into Hpos, H4 into C3, H5 into C2. rename H into C1.
-    apply Qle_bool_R in C1, C2, C3. rewrite Q2R_0 in C1, C2, C3.
-    assert (Hp : (0 < Q2R c1 \/ 0 < Q2R c2 \/ 0 < Q2R c3)%R).
+    rename H0 into K3, H1 into K2, H2 into K1. rename H into Hpos.
+    set (D := det3 (v2r g1) (v2r g2) (v2r g3)) in *.
+    set (e1 := det3 (v2r g) (v2r g2) (v2r g3)). set (e2 := det3 (v2r g1) (v2r g) (v2r g3)).
+    set (e3 := det3 (v2r g1) (v2r g2) (v2r g)).
+    assert (Hq : forall a b c, (Qlt_bool 0 (qdet a b c * qdet g1 g2 g3) = true -> 0 < det3 (v2r a) (v2r b) (v2r c) * D)%R).
+    { intros a b c Hx. apply Qlt_bool_R in Hx. rewrite Q2R_0, Q2R_mult, !qdet_r in Hx. exact Hx. }
+    assert (Hqf : forall a b c, (Qlt_bool 0 (qdet a b c * qdet g1 g2 g3) = false -> det3 (v2r a) (v2r b) (v2r c) * D <= 0)%R).
+    { intros a b c Hx. apply Qlt_bool_false_R in Hx. rewrite Q2R_0, Q2R_mult, !qdet_r in Hx. exact Hx. }
+    assert (HD : D <> 0%R).
+    { intros HD0. apply orb_true_iff in Hpos as [Hpos|Hpos]; [apply orb_true_iff in Hpos as [Hpos|Hpos]|];
+        apply Hq in Hpos; rewrite HD0 in Hpos; lra. }
+    assert (HD2 : (0 < D * D)%R) by (destruct (Rlt_dec 0 D); nra).
+    assert (Hg : v2r g = comb3 (e1 / D) (e2 / D) (e3 / D) (v2r g1) (v2r g2) (v2r g3)).
+    { pose proof (cramer (v2r g1) (v2r g2) (v2r g3) (v2r g)) as HC. fold D e1 e2 e3 in HC.
+      unfold comb3. destruct (v2r g) as [x1 x2 x3], (v2r g1) as [a1 a2 a3], (v2r g2) as [b1 b2 b3], (v2r g3) as [c1 c2 c3].
+      revert HC. vunfold. cbn [vx vy vz]. intros HC. inversion HC as [[X1 X2 X3]].
+      f_equal; apply Rmult_eq_reg_l with D; auto; [rewrite X1|rewrite X2|rewrite X3]; field; auto. }
+    assert (Hdiv : forall e : R, (0 < e / D <-> 0 < e * D)%R).
+    { intros e. replace (e / D)%R with (e * D / (D * D))%R by (field; auto). split; intros He.
+      - replace (e * D)%R with (e * D / (D * D) * (D * D))%R by (field; auto). apply Rmult_lt_0_compat; lra.
+      - apply Rmult_lt_0_compat; [lra|apply Rinv_0_lt_compat; lra]. }
+    assert (Hp : (0 < e1 / D \/ 0 < e2 / D \/ 0 < e3 / D)%R).
     { apply orb_true_iff in Hpos as [Hpos|Hpos]; [apply orb_true_iff in Hpos as [Hpos|Hpos]|];
-        apply Qlt_bool_R in Hpos; rewrite Q2R_0 in Hpos; auto. }
-    pose proof (cone_split _ _ _ n _ _ _ C1 C2 C3 Hp Hn) as HS. cbv zeta in HS.
-    rewrite <- qcomb3_r in HS.
-    destruct HS as [(P & HC)|[(P & HC)|(P & HC)]].
-    + destruct (Qlt_bool 0 c1) eqn:E; [eapply IH1; eauto|].
-      apply Qlt_bool_false_R in E. rewrite Q2R_0 in E. lra.
-    + destruct (Qlt_bool 0 c2) eqn:E; [eapply IH2; eauto|].
-      apply Qlt_bool_false_R in E. rewrite Q2R_0 in E. lra.
-    + destruct (Qlt_bool 0 c3) eqn:E; [eapply IH3; eauto|].
-      apply Qlt_bool_false_R in E. rewrite Q2R_0 in E. lra.
+        apply Hq in Hpos; [left|right; left|right; right]; apply Hdiv; exact Hpos. }
+    pose proof (cone_split _ _ _ n _ _ _ Hp Hn) as HS. cbv zeta in HS. rewrite <- Hg in HS.
+    destruct HS as [(P & HC)|[(P & HC)|(P & HC)]]; apply (proj1 (Hdiv _)) in P.
+    + destruct (Qlt_bool 0 (qdet g g2 g3 * qdet g1 g2 g3)) eqn:E; [eapply IH1; eauto|]. apply Hqf in E. fold e1 in E. lra.
+    + destruct (Qlt_bool 0 (qdet g1 g g3 * qdet g1 g2 g3)) eqn:E; [eapply IH2; eauto|]. apply Hqf in E. fold e2 in E. lra.
+    + destruct (Qlt_bool 0 (qdet g1 g2 g * qdet g1 g2 g3)) eqn:E; [eapply IH3; eauto|]. apply Hqf in E. fold e3 in E. lra.
 Qed.
 
 (** certified points of A - B *)
@@ -226,7 +289,7 @@ Fixpoint diff_pts (A B : sh) (ws : list (wit * wit)) : option (list VQ) :=
   | [] => Some []
   | (wa, wb) :: r =>
     match point_of A wa, point_of B wb, diff_pts A B r with
-    | Some a, Some b, Some l => Some (qsub a b :: l)
+    | Some a, Some b, Some l => Some (vred (qsub a b) :: l)
     | _, _, _ => None
     end
   end.
@@ -240,7 +303,7 @@ Proof.
     destruct (point_of B wb) as [b|] eqn:Eb; [|discriminate].
     destruct (diff_pts A B r) as [l'|] eqn:El; [|discriminate].
     inversion H; subst. destruct Hp as [<-|Hp].
-    + exists (v2r a), (v2r b). repeat split; eauto using point_of_sound. apply qsub_r.
+    + exists (v2r a), (v2r b). repeat split; eauto using point_of_sound. rewrite vred_r. apply qsub_r.
     + eapply IH; eauto.
 Qed.
 
